@@ -52,6 +52,9 @@ func (prop) Run(line string) core.Outcome {
 
 func runLine(line string) core.Outcome {
 	f := strings.Fields(line)
+	if len(f) == 4 && f[0] == "rs" {
+		return runRS(line, f[1:])
+	}
 	if len(f) != 2 {
 		return core.Outcome{Impl: "bad-op"}
 	}
@@ -107,7 +110,7 @@ func (prop) Generate(rng *core.Rand, tier string, emit0 func(string)) {
 		var todo []string
 		seen := map[string]bool{}
 		for _, l := range lines {
-			if (strings.HasPrefix(l, "as ") || strings.HasPrefix(l, "fs ")) && !seen[l] {
+			if (strings.HasPrefix(l, "as ") || strings.HasPrefix(l, "fs ") || strings.HasPrefix(l, "rs ")) && !seen[l] {
 				seen[l] = true
 				todo = append(todo, l)
 			}
@@ -306,6 +309,49 @@ func (prop) Generate(rng *core.Rand, tier string, emit0 func(string)) {
 		emit("fs " + strings.Join(evs, ";"))
 	}
 
+	// ---- the resume side through the real command line (`caddy run --resume --envfile …`): every
+	// process environment x every env-file set: push, SIGKILL, restart with --resume
+	rsEnvs := []string{"x-h1", "x0h1", "xeh1", "x-h-", "x-he", "x3h-"}
+	rsFiles := []string{".", "_", "x=2", "h=3", "x=2,h=3", "h=3/x=2", "x=e", "o=1,x=2", "x=2/x=3", "o=0/_/h=0"}
+	for _, e := range rsEnvs {
+		for _, fl := range rsFiles {
+			emit(fmt.Sprintf("rs %s %s S:r:1p;P:2p;K;S:r:1p", e, fl))
+		}
+	}
+	rrs := rng.Fork()
+	nRS := 12
+	if tier == "thorough" {
+		nRS = 300
+	} else if tier == "search" {
+		nRS = 40
+	}
+	for c := 0; c < nRS; c++ {
+		var evs []string
+		next := 1
+		evs = append(evs, fmt.Sprintf("S:%s:%d%s", rrs.Pick([]string{"r", "-"}), next, rrs.Pick([]string{"p", "d", "n"})))
+		for i, n := 0, 2+rrs.Intn(7); i < n; i++ {
+			next++
+			switch rrs.Intn(6) {
+			case 0:
+				evs = append(evs, "K")
+			case 1, 2:
+				evs = append(evs, fmt.Sprintf("S:%s:%d%s", rrs.Pick([]string{"r", "r", "-"}), next, rrs.Pick([]string{"p", "d", "n"})))
+			default:
+				x := ""
+				if rrs.Chance(1, 8) {
+					x = "x"
+				}
+				n := next
+				if rrs.Chance(1, 5) && next > 2 {
+					n = 1 + rrs.Intn(next-1) // push an earlier number again
+				}
+				evs = append(evs, fmt.Sprintf("P:%d%s%s", n, rrs.Pick([]string{"p", "p", "d", "n"}), x))
+			}
+		}
+		evs = append(evs, "K", "S:r:99d")
+		emit(fmt.Sprintf("rs %s %s %s", rrs.Pick(rsEnvs), rrs.Pick(rsFiles), strings.Join(evs, ";")))
+	}
+
 	// ---- autosave, systematic: persistence on/off/default, rejected loads, unchanged config,
 	// forced reload, @id, null config, restarts
 	emit("as L1:d:-;L1:d:-;L1:df:-;L2:p:-;L3:n:-;L3:n:-;L4:px:-;L5:dy:-;L6:dj:-;L7:di:-;R;L7:di:-;L8:n:-;R;L9:d:-")
@@ -396,7 +442,7 @@ func (prop) Generate(rng *core.Rand, tier string, emit0 func(string)) {
 	// ---- malformed
 	bad := []string{"ca", "ca ", "ca x", "ca l", "ca l:", "ca l:0cb", "ca l:3xx", "ca m:-", "ca l:-;", "ca l:-;;l:-", "ca l:-3cb", "ca m", "ca m:", "ca m:0cb", "ca m:-:-", "ca d:xx", "ca c:rc", "ca c:rc>zz", "ca d:", "ca c:rc>rk>ik",
 		"as", "as L", "as L1", "as L1:d", "as L1:q:-", "as L1:d:K0", "as L1:d:X1", "as L1:dd:-", "as Lx:d:-", "as R;", "as L1:d:K1;L2:d:F1", "as U:", "as u", "as L1:d:-;UU",
-		"fs", "fs l", "fs l:K0", "fs l:X1", "fs m:-", "fs l:-;", "fs l:3cb", "zz l:-", "ca l:- extra", "as L1:dff:-", "ca l:1cb:2", "as L1:d:-:3"}
+		"rs", "rs x-h1", "rs x-h1 .", "rs x-h1 . Q", "rs xzh1 . K", "rs x-h1 x=- K", "rs x-h1 x=2,x=3 K", "rs x-h1 . S:r:1px", "rs x-h1 . P:1q", "rs x-h1 . S:z:1p", "fs", "fs l", "fs l:K0", "fs l:X1", "fs m:-", "fs l:-;", "fs l:3cb", "zz l:-", "ca l:- extra", "as L1:dff:-", "ca l:1cb:2", "as L1:d:-:3"}
 	for _, b := range bad {
 		emit(b)
 	}
